@@ -48,6 +48,37 @@ def parseOut (j : Json) : Option (List (ORow Int)) :=
       | _ => none)
   | none => none
 
+/-- all 20 fields of a row as integers (IEEE bit patterns; the checker only compares them) -/
+def particleOf (l : List Int) : Particle Int := Particle.ofList (-1) l
+
+/-- `"entry"`: per tomogram, per position, the 20 fields of the entry-list row -/
+def parseEntry (j : Json) : Option (Array (Array (Particle Int))) :=
+  match getArr? j "entry" with
+  | some ts => ts.mapM (fun t => match t with
+      | Json.arr ps => ps.mapM (fun p => (ints p).map particleOf)
+      | _ => none)
+  | none => none
+
+/-- `"outp"`: per returned row `[tomogram number, position, 20 fields…]` -/
+def parseOutP (j : Json) : Option (List (PRow Int)) :=
+  match getArr? j "outp" with
+  | some rs => rs.toList.mapM (fun r => match ints r with
+      | some (t :: i :: fs) => some (t.toNat, i.toNat, particleOf fs)
+      | _ => none)
+  | none => none
+
+def parseStore (j : Json) : Option Store :=
+  match getArr? j "store" with
+  | some a => (a.toList.mapM (fun (x : Json) => (x.getStr?).toOption)).bind Store.ofNames
+  | none => Store.gen
+
+/-- the field check, when the request carries the full rows: `none` = not requested -/
+def fieldsCheck (j : Json) : Option Bool :=
+  match parseStore j, parseEntry j, parseOutP j with
+  | some st, some en, some out =>
+    some (chkFields st (fun t i => (((en[t]?).getD #[])[i]?).getD (particleOf [])) out)
+  | _, _, _ => none
+
 def handle (j : Json) : Json :=
   match getStr? j "op", getInt? j "max", getInt? j "min", parseTomos j with
   | some op, some maxS, some minS, some tomos =>
@@ -62,8 +93,9 @@ def handle (j : Json) : Json :=
     | "check" =>
       match parseOut j with
       | some out =>
-        Json.mkObj [("ok", Json.bool (chainsOk cs out)), ("once", Json.bool (chkOnce cs out)),
-                    ("orders", Json.bool (chkOrders out)), ("dist", Json.bool (chkDist cs out))]
+        Json.mkObj ([("ok", Json.bool (chainsOk cs out)), ("once", Json.bool (chkOnce cs out)),
+                    ("orders", Json.bool (chkOrders out)), ("dist", Json.bool (chkDist cs out))] ++
+                    (match fieldsCheck j with | some b => [("fields", Json.bool b)] | none => []))
       | none => err "bad-args"
     | _ => err "bad-op"
   | _, _, _, _ => err "bad-args"
